@@ -88,6 +88,8 @@ class ExpHooks(GslHooks):
         self.scalars = 0
         self.order_taken = None
         self.s_choice = None
+        self.cmps = []  # (op, lhs, rhs, outcome, where) of the order-selection comparisons on this path
+        self.f2i = None  # the value whose conversion to int gives the scaling exponent
         self.solve = None
         self.lu = {}
 
@@ -289,18 +291,21 @@ class ExpHooks(GslHooks):
             a = it.eval(args[0])
             if isinstance(a, Poly) and a.is_const():
                 return Poly.const(math.ceil(a.const_value()) if 'ceil' in base else math.floor(a.const_value()))
-            return Poly.func('ceil', it.to_poly(a))
+            return Poly.func('ceil' if 'ceil' in base else 'floor', it.to_poly(a))
         return GslHooks.external_call(self, it, name, node, args, this_cell)
 
     def decide_cmp(self, it, op, pa, pb, node):
         # comparison between opaque norm estimates and constants: a path choice
         lab = '%s %s %s' % (str(pa)[:40], op, str(pb)[:40])
-        return 1 if self.ch.pick(lab, 2) == 0 else 0
+        r = 1 if self.ch.pick(lab, 2) == 0 else 0
+        self.cmps.append((op, pa, pb, r, it.loc(node)))
+        return r
 
     def float_to_int(self, it, node, value):
         # scaling exponent computed from norm estimates: explore small values
         k = self.ch.pick('scaling exponent u', 4)
         self.s_choice = k
+        self.f2i = (value, it.loc(node))
         return k
 
     def on_undef_read(self, it, cell, node):
@@ -430,6 +435,7 @@ def explore_paths(db, rep, tables):
         key = (m, hooks.s_choice, tuple(e for e in hooks.events if e[0] == 'ell'))
         if m not in seen_orders:
             seen_orders[m] = hooks
+        thresholds.append((m, list(hooks.cmps), hooks.f2i))
         # U, V
         Amat, idm = hooks.pade_args[0], hooks.pade_args[1]
         U, V = hooks.pade_args[-2], hooks.pade_args[-1]
@@ -469,51 +475,106 @@ def explore_paths(db, rep, tables):
         # squaring: give the solved ratio a name and redo the tail symbolically
         if m == 13:
             square_ok.setdefault(s, None)
-    return seen_orders, stale, paths
+    return seen_orders, stale, paths, thresholds
 
 
-def check_thresholds(db, rep):
-    """G.pade.theta: literals compared with the eta's, per branch, <= published theta_m, increasing order"""
+def upper_bound_of(op, pa, pb, outcome):
+    """the comparison (with its outcome) read as `quantity < c` or `quantity <= c`: returns c, or None"""
+    if not outcome:
+        op = {'<': '>=', '<=': '>', '>': '<=', '>=': '<'}.get(op)
+    if op in ('<', '<=') and isinstance(pb, Poly) and pb.is_const() and isinstance(pa, Poly) and not pa.is_const():
+        return float(pb.const_value())
+    if op in ('>', '>=') and isinstance(pa, Poly) and pa.is_const() and isinstance(pb, Poly) and not pb.is_const():
+        return float(pa.const_value())
+    return None
+
+
+def scaling_constants(value):
+    """value = ceil(c1*log(c2*eta)) -> (c1, c2); None if the expression has another shape"""
+    from poly import atom_of, atom_arg
+
+    def single(p):
+        p = p.clean()
+        if len(p.t) != 1:
+            return None
+        (mono, c), = p.t.items()
+        if len(mono) != 1 or mono[0][1] != 1:
+            return None
+        return float(c), atom_of(mono[0][0])
+    r = single(value) if isinstance(value, Poly) else None
+    if r is None or r[1][0] != 'f' or r[1][1] not in ('ceil', 'floor') or abs(r[0] - 1) > 1e-15:
+        return None
+    rounding = r[1][1]
+    r1 = single(atom_arg(r[1]))
+    if r1 is None or r1[1][0] != 'f' or r1[1][1] != 'log':
+        return None
+    r2 = single(atom_arg(r1[1]))
+    if r2 is None:
+        return None
+    return r1[0], r2[0], rounding
+
+
+def check_thresholds(db, rep, thresholds):
+    """G.pade.theta, decided on the explored paths (not on the spelling of the code): on every path that ends in
+    order m in {3,5,7,9} the norm quantity was bounded above, by the comparisons taken on that path, by a constant
+    not exceeding the published theta_m; the lower orders are tried first (their bounds were refused on the path);
+    the scaling exponent of the order-13 path is ceil(log2(eta/theta)) with theta <= theta_13 = 4.25."""
     unit = db.unit('MatrixExp')
     f = db.one('MatrixExp', ME + 'matrix_exponential', 2)
-    found = []
-    for node in walk(f['body']):
-        if node.get('k') == 'IfStmt':
-            lits = []
-            for x in walk(node.get('cond')):
-                if x.get('k') == 'BinaryOperator' and x.get('op') in ('<', '<='):
-                    r = strip(x['c'][1])
-                    if r is not None and r.get('k') == 'FloatingLiteral':
-                        lits.append(float(r['v']))
-            calls = [c.get('callee') for c in walk(node.get('then')) if c.get('k') == 'CallExpr' and (c.get('callee') or '').startswith(ME + 'pade')]
-            if lits and calls:
-                found.append((int(calls[0][len(ME) + 4:]), lits[0], unit.loc(node)))
-    # theta_13 used for scaling
-    th13 = None
-    for node in walk(f['body']):
-        if node.get('k') == 'VarDecl' and node.get('name') == 'theta_13':
-            for x in walk(node.get('init')):
-                if x.get('k') == 'FloatingLiteral':
-                    th13 = float(x['v'])
-    orders = [m for m, _, _ in found]
     n = 0
-    for m, lit, where in found:
-        n += 1
-        if m in PUBLISHED_THETA and lit <= PUBLISHED_THETA[m] * (1 + 1e-15):
-            rep.ok('G.pade.theta')
-        else:
-            rep.fail('G.pade.theta', 'theta_%d' % m, where, 'threshold for order %d not above the published theta_%d = %r' % (m, m, PUBLISHED_THETA.get(m)), repr(lit), f['name'])
-    if orders != sorted(orders) or orders != [3, 5, 7, 9]:
-        rep.fail('G.pade.theta', 'order', unit.loc(f), 'orders 3,5,7,9 tried in increasing order, then 13', str(orders), f['name'])
-    else:
-        rep.ok('G.pade.theta')
+    by_order = {}
+    order_bad = None
+    for m, cmps, f2i in thresholds:
+        consts = [upper_bound_of(op, pa, pb, 1) for (op, pa, pb, r, w) in cmps]  # each guard read as `quantity < c`
+        if m in (3, 5, 7, 9):
+            # the guard of the branch taken is the last comparison on the path, and it was accepted
+            last = cmps[-1] if cmps else None
+            bound = upper_bound_of(last[0], last[1], last[2], last[3]) if last is not None and last[3] else None
+            where = last[4] if last is not None else unit.loc(f)
+            by_order.setdefault(m, set()).add((bound, where))
+            # the guards met earlier on this path belong to lower orders: their constants must be smaller
+            earlier = [c for c in consts[:-1] if c is not None]
+            if bound is not None and (any(c >= bound for c in earlier) or earlier != sorted(earlier)):
+                order_bad = (m, bound, earlier)
+        elif m == 13:
+            by_order.setdefault(13, set()).add((None, f2i[1] if f2i else unit.loc(f)))
+    for m in (3, 5, 7, 9):
+        for bound, where in sorted(by_order.get(m, ()), key=str):
+            n += 1
+            if bound is not None and bound <= PUBLISHED_THETA[m] * (1 + 1e-15):
+                rep.ok('G.pade.theta')
+            else:
+                rep.fail('G.pade.theta', 'theta_%d' % m, where, 'order %d only used when the norm quantity is below the published theta_%d = %r' % (m, m, PUBLISHED_THETA.get(m)),
+                         'bound on the path: %r' % (bound,), f['name'])
     n += 1
-    if th13 is not None and th13 <= PUBLISHED_THETA[13] * (1 + 1e-15):
-        rep.ok('G.pade.theta')
+    lows = [min(b for b, _ in by_order[m] if b is not None) for m in (3, 5, 7, 9) if by_order.get(m) and any(b is not None for b, _ in by_order[m])]
+    if order_bad or lows != sorted(lows) or len(lows) != 4:
+        rep.fail('G.pade.theta', 'order', unit.loc(f), 'orders 3,5,7,9 tried in increasing order, then 13',
+                 'bounds per order %s%s' % (lows, '; order %d accepted under %r after refusing %r' % order_bad if order_bad else ''), f['name'])
     else:
-        rep.fail('G.pade.theta', 'theta_13', unit.loc(f), 'scaling threshold not above the published theta_13 = 4.25', repr(th13), f['name'])
+        rep.ok('G.pade.theta')
+    # scaling exponent of the order-13 path
+    n += 1
+    sc = None
+    where13 = unit.loc(f)
+    for m, cmps, f2i in thresholds:
+        if m == 13 and f2i is not None:
+            sc = scaling_constants(f2i[0])
+            where13 = f2i[1]
+            break
+    ln2inv = 1.0 / math.log(2.0)
+    if sc is None:
+        th13 = None
+        rep.break_('the scaling exponent of the order-13 path is not of the form ceil/floor(c1*log(c2*eta)); rule G.pade.theta cannot judge it (%s)' % where13)
+    elif sc[2] == 'ceil' and abs(sc[0] - ln2inv) <= 1e-12 * ln2inv and sc[1] >= (1.0 / PUBLISHED_THETA[13]) * (1 - 1e-15):
+        rep.ok('G.pade.theta')
+        th13 = 1.0 / sc[1]
+    else:
+        th13 = None
+        rep.fail('G.pade.theta', 'theta_13', where13, 'scaling exponent = ceil(log2(eta/theta)) with theta not above the published theta_13 = 4.25',
+                 'constants (1/ln 2, 1/theta, rounding) found: %r' % (sc,), f['name'])
     rep.floor('G.pade.theta', n, 5)
-    rep.sample('G.pade.theta', 'thresholds found: %s, theta_13=%r' % ([(m, l) for m, l, _ in found], th13))
+    rep.sample('G.pade.theta', 'bounds found on the paths: %s, theta_13=%r' % ({m: sorted(b for b, _ in v if b is not None) for m, v in by_order.items() if m != 13}, th13))
 
 
 def check_squaring(db, rep):
@@ -613,6 +674,38 @@ def check_diagonal(db, rep):
         rep.ok('G.exp.diag')
     else:
         rep.fail('G.exp.diag', 'diagonal', unit.loc(f), 'diagonal input: exp of each diagonal entry, zeros elsewhere', 'different', f['name'])
+    # the shortcut must be taken for diagonal matrices only: one non-zero entry (real or imaginary part) at any
+    # off-diagonal position sends the matrix through the Pade path
+    n_off = 0
+    for n in (2, 3, 4):
+        for r0 in range(n):
+            for c0 in range(n):
+                if r0 == c0:
+                    continue
+                for part in ('re', 'im'):
+                    n_off += 1
+                    hooks = ExpHooks(Choices(()), n)
+
+                    def entry(r, c, r0=r0, c0=c0, part=part):
+                        if r == c:
+                            return CPoly(Poly.const(1 + r), Poly.const(0.5 * r))
+                        if (r, c) == (r0, c0):
+                            return CPoly(Poly.const(1), Poly.const(0)) if part == 're' else CPoly(Poly.const(0), Poly.const(1))
+                        return CPoly(0, 0)
+                    A = hooks.new_matrix(n, n, 'A', entry)
+                    A.mp = MP('A', {1: 1.0})
+                    A.defined = True
+                    eA = hooks.new_matrix(n, n, 'eA')
+                    it = Interp(unit, hooks)
+                    it.call(f, None, [eA.ptr, A.ptr])
+                    if any(e[0] == 'lu_solve' for e in hooks.events):
+                        rep.ok('G.exp.diag')
+                    else:
+                        rep.fail('G.exp.diag', 'shortcut/n=%d/(%d,%d)/%s' % (n, r0, c0, part), unit.loc(f),
+                                 'a matrix with a non-zero off-diagonal entry goes through the Pade approximant',
+                                 'the %s part of entry (%d,%d) is not seen by the diagonality test: the result is diag(exp(a_ii))' % ('real' if part == 're' else 'imaginary', r0, c0),
+                                 f['name'])
+    rep.floor('G.exp.diag', n_off, 40)
 
 
 def check_estimator_guards(db, rep):
@@ -729,7 +822,7 @@ def run(db, rep, tier):
                      'consistency of the scaling of B with the final s when ell(B,13)>0 (numerically unreachable, not decidable structurally)']
     tables = pade_tables(db, rep)
     check_helpers(db, rep)
-    seen, stale, paths = explore_paths(db, rep, tables)
+    seen, stale, paths, thresholds = explore_paths(db, rep, tables)
     rep.notes.append('%d order/scaling paths explored' % paths)
     for m in (3, 5, 7, 9, 13):
         if m not in seen:
@@ -739,7 +832,7 @@ def run(db, rep, tier):
                  'read of stale contents as %s' % what, ME + 'matrix_exponential')
     if not stale:
         rep.ok('G.scratch.def', 1)
-    check_thresholds(db, rep)
+    check_thresholds(db, rep, thresholds)
     check_squaring(db, rep)
     check_power_estimator(db, rep)
     check_diagonal(db, rep)
